@@ -180,3 +180,68 @@ Proof.
     try lra.
   intros x y z. apply ucart_qform.
 Qed.
+
+(* ---- is_npd(): Sylvester's criterion on the Cartesian tensor (traced kernel k_npd) ---- *)
+
+Definition minor2 (u11 u22 u33 u23 u13 u12 : R) : R := u11 * u22 - u12 * u12.
+Definition minor3 (u11 u22 u33 u23 u13 u12 : R) : R :=
+  u11 * (u22 * u33 - u23 * u23) - u12 * (u12 * u33 - u23 * u13) + u13 * (u12 * u23 - u22 * u13).
+
+(* a symmetric 3x3 tensor is positive definite exactly when its three leading principal minors are positive *)
+Lemma sylvester3 u11 u22 u33 u23 u13 u12 :
+  pos_def u11 u22 u33 u23 u13 u12 <->
+  (0 < u11 /\ 0 < minor2 u11 u22 u33 u23 u13 u12 /\ 0 < minor3 u11 u22 u33 u23 u13 u12).
+Proof.
+  unfold pos_def, minor2, minor3, qform. split.
+  - intros P.
+    assert (H1 : 0 < u11).
+    { specialize (P 1 0 0). lapply P; [intros Q; lra | intros (A & _ & _); lra]. }
+    assert (H2 : 0 < u11 * u22 - u12 * u12).
+    { specialize (P (- u12) u11 0). lapply P; [intros Q | intros (_ & A & _); lra].
+      assert (E : u11 * (u11 * u22 - u12 * u12) =
+                  u11 * - u12 * - u12 + u22 * u11 * u11 + u33 * 0 * 0 + 2 * u23 * u11 * 0 + 2 * u13 * - u12 * 0 + 2 * u12 * - u12 * u11) by ring.
+      rewrite <- E in Q. nra. }
+    repeat split; try assumption.
+    pose (v0 := u12 * u23 - u22 * u13). pose (v1 := u12 * u13 - u11 * u23). pose (v2 := u11 * u22 - u12 * u12).
+    specialize (P v0 v1 v2). lapply P; [intros Q | intros (_ & _ & A); unfold v2 in A; lra].
+    assert (E : v2 * (u11 * (u22 * u33 - u23 * u23) - u12 * (u12 * u33 - u23 * u13) + u13 * (u12 * u23 - u22 * u13)) =
+                u11 * v0 * v0 + u22 * v1 * v1 + u33 * v2 * v2 + 2 * u23 * v1 * v2 + 2 * u13 * v0 * v2 + 2 * u12 * v0 * v1)
+      by (unfold v0, v1, v2; ring).
+    rewrite <- E in Q. unfold v2 in Q. nra.
+  - intros (H1 & H2 & H3) x y z Hnz.
+    set (m2 := u11 * u22 - u12 * u12) in *.
+    set (d := u11 * (u22 * u33 - u23 * u23) - u12 * (u12 * u33 - u23 * u13) + u13 * (u12 * u23 - u22 * u13)) in *.
+    set (q := u11 * x * x + u22 * y * y + u33 * z * z + 2 * u23 * y * z + 2 * u13 * x * z + 2 * u12 * x * y).
+    set (A := u11 * u23 - u12 * u13).
+    assert (E : u11 * m2 * q = m2 * ((u11 * x + u12 * y + u13 * z) * (u11 * x + u12 * y + u13 * z))
+                               + (m2 * y + A * z) * (m2 * y + A * z) + u11 * d * (z * z))
+      by (unfold m2, q, A, d; ring).
+    assert (S1 : 0 <= (u11 * x + u12 * y + u13 * z) * (u11 * x + u12 * y + u13 * z)) by apply Rle_0_sqr.
+    assert (S2 : 0 <= (m2 * y + A * z) * (m2 * y + A * z)) by apply Rle_0_sqr.
+    assert (S3 : 0 <= z * z) by apply Rle_0_sqr.
+    assert (Pm : 0 < u11 * m2) by (apply Rmult_lt_0_compat; assumption).
+    assert (Pd : 0 < u11 * d) by (apply Rmult_lt_0_compat; assumption).
+    assert (G : 0 < u11 * m2 * q).
+    { rewrite E.
+      destruct (Req_dec z 0) as [Z | Z].
+      - subst z. destruct (Req_dec y 0) as [Y | Y].
+        + subst y. assert (X : x <> 0) by (intros X; apply Hnz; split; [exact X | split; reflexivity]).
+          assert (0 < (u11 * x) * (u11 * x)) by (apply Rsqr_pos_lt; apply Rmult_integral_contrapositive_currified; lra).
+          replace (u11 * x + u12 * 0 + u13 * 0) with (u11 * x) by ring.
+          replace (m2 * 0 + A * 0) with 0 by ring. nra.
+        + assert (0 < (m2 * y) * (m2 * y)) by (apply Rsqr_pos_lt; apply Rmult_integral_contrapositive_currified; lra).
+          replace (m2 * y + A * 0) with (m2 * y) by ring. nra.
+      - assert (0 < z * z) by (apply Rsqr_pos_lt; exact Z). nra. }
+    fold q. nra.
+Qed.
+
+(* the decision tree of the last line of is_npd: 1 = "not (minor1 > 0 and minor2 > 0 and minor3 > 0)" *)
+Definition npd_of_minors (m1 m2 m3 : R) : R :=
+  if Rlt_dec 0 m1 then if Rlt_dec 0 m2 then if Rlt_dec 0 m3 then 0 else 1 else 1 else 1.
+
+Lemma npd_of_minors_spec m1 m2 m3 :
+  (npd_of_minors m1 m2 m3 = 0 <-> (0 < m1 /\ 0 < m2 /\ 0 < m3)) /\ (npd_of_minors m1 m2 m3 = 0 \/ npd_of_minors m1 m2 m3 = 1).
+Proof.
+  unfold npd_of_minors. destruct (Rlt_dec 0 m1); [destruct (Rlt_dec 0 m2); [destruct (Rlt_dec 0 m3)|]|];
+    (split; [split; [intros E; try lra; repeat split; assumption | intros (? & ? & ?); try reflexivity; try contradiction] | auto]).
+Qed.
